@@ -98,9 +98,10 @@ func (g *GlobalTransactionManager) Commit(ctx context.Context, gtr *GlobalTransa
 		bf.Wait()
 	}
 
-	if err != nil || bf.Err() != nil {
-		lastErr := errors.Wrap(err, bf.Err().Error())
-		log.Warnf("send global commit request failed, xid %s, error %v", gtr.Xid, lastErr)
+	if err != nil || res == nil {
+		// no response arrived: either every attempt failed or none was made (e.g. the context is already done)
+		lastErr := errors.Errorf("send global commit request failed, xid %s, error %v, backoff %v", gtr.Xid, err, bf.Err())
+		log.Warnf("%v", lastErr)
 		return lastErr
 	}
 
